@@ -211,6 +211,17 @@ func (s *Solver) PopCheck() {
 	}
 }
 
+// definedOf filters the terms already defined in the solver context.
+func (s *Solver) definedOf(ts []*Term) []*Term {
+	var out []*Term
+	for _, t := range ts {
+		if s.defined[t.ID] {
+			out = append(out, t)
+		}
+	}
+	return out
+}
+
 // Model reads values of the given terms (vars or any defined term) from the
 // last sat answer. Must be called before PopCheck.
 func (s *Solver) Model(ts *TermStore, terms []*Term) (map[int]uint64, error) {
@@ -233,7 +244,9 @@ func (s *Solver) Model(ts *TermStore, terms []*Term) (map[int]uint64, error) {
 			continue
 		}
 		if !s.defined[t.ID] {
-			res[t.ID] = 0
+			if t.Op == OpVar {
+				res[t.ID] = 0
+			}
 			continue
 		}
 		sb.WriteString(t.ref())
